@@ -301,6 +301,10 @@ impl FixtureDatabase {
         // Remove from imported_fixtures_cache
         self.imported_fixtures_cache.remove(&canonical);
 
+        // Results memoised for OTHER files may depend on this file's cached text
+        // (imports are resolved through file_cache); invalidate them.
+        self.invalidate_cycle_cache();
+
         // Note: We don't remove from canonical_path_cache because:
         // 1. It's keyed by original path, not canonical path
         // 2. Path->canonical mappings are stable and small
@@ -341,6 +345,10 @@ impl FixtureDatabase {
                 self.available_fixtures_cache.remove(&path);
                 self.imported_fixtures_cache.remove(&path);
             }
+
+            // Same as in cleanup_file_cache: memoised results of other files may depend
+            // on the evicted texts.
+            self.invalidate_cycle_cache();
 
             debug!(
                 "Cache eviction complete, new size: {}",
